@@ -57,7 +57,7 @@ func nodeDigest(n *simnode.Node, addrs []common.Address) string {
 
 // c09FastSync lets a fresh node fast-sync from the twin (real fastSync steps, honest provider) while its disk
 // records every storage unit from the first header to the switch to the imported state.
-func c09FastSync(r *vfw.Run, s *scen.Scn, twin *simnode.Node, encs map[uint64][]byte) *c09op {
+func c09FastSync(r *vfw.Run, s *scen.Scn, twin *simnode.Node, encs map[uint64][]byte, older []*snapshot.Manifest) *c09op {
 	var manifest *snapshot.Manifest
 	twin.Do(func() { manifest = twin.Chain.ReadSnapshotManifest() })
 	if manifest == nil || manifest.Height <= 2 || manifest.Height > twin.Chain.Head.Height() {
@@ -70,7 +70,21 @@ func c09FastSync(r *vfw.Run, s *scen.Scn, twin *simnode.Node, encs map[uint64][]
 		return nil
 	}
 	defer J.Stop()
-	op := &c09op{key: jk.Key, store: J.Ipfs, kind: "fastsync", height: manifest.Height, low: 1, pre: J.Disk.Clone(), manifest: manifest}
+	kind, low := "fastsync", uint64(1)
+	// sometimes the joiner has fast-synced before, to an older snapshot, and has not moved since: its state sits where an
+	// import put it and its head is the height the next import starts from
+	if len(older) > 0 && r.ChooseOpt("c09.fastsync.second", 3) >= 1 {
+		first := older[r.Choose("c09.fastsync.first", len(older))]
+		if first.Height > 2 && first.Height < manifest.Height {
+			ferr, pv, _ := c09RunFastSync(twin, J, first)
+			if ferr != nil || pv != nil || J.Chain.Head.Height() != first.Height {
+				r.Probe("first_fast_sync_of_joiner_not_completed")
+				return nil
+			}
+			kind, low = "fastsync-from-fast-synced-head", first.Height
+		}
+	}
+	op := &c09op{key: jk.Key, store: J.Ipfs, kind: kind, height: manifest.Height, low: low, pre: J.Disk.Clone(), manifest: manifest}
 	J.Disk.Record = true
 	J.Disk.Journal = nil
 	ferr, pv, st := c09RunFastSync(twin, J, manifest)
@@ -164,6 +178,7 @@ func runC09(r *vfw.Run) {
 	}
 	encs := map[uint64][]byte{}
 	twinDigest := map[uint64]string{}
+	var manifests []*snapshot.Manifest // every snapshot manifest the twin has published, oldest first
 	var ops []*c09op
 	wantOps := 2 + r.Choose("cfg.nops", 3)
 	for i := 0; i < rounds; i++ {
@@ -180,6 +195,11 @@ func runC09(r *vfw.Run) {
 			twin.Do(func() { twin.SM.VerifCreateSnapshot(rr.Height) })
 		}
 		twinDigest[rr.Height] = nodeDigest(twin, addrs)
+		twin.Do(func() {
+			if m := twin.Chain.ReadSnapshotManifest(); m != nil && (len(manifests) == 0 || manifests[len(manifests)-1].Height != m.Height) {
+				manifests = append(manifests, m)
+			}
+		})
 		interesting := rr.Flags != 0 || rr.Txs > 0 || rr.Empty
 		record := len(ops) < wantOps && i >= 2 && i < rounds-3 && (interesting && r.Choose("op.pick", 2) == 0 || r.Choose("op.pickplain", 8) == 0)
 		if !record {
@@ -293,7 +313,10 @@ func runC09(r *vfw.Run) {
 		}
 	}
 	// ---- fast sync of a late joiner as one more recorded operation ----
-	if op := c09FastSync(r, s, twin, encs); op != nil {
+	if len(manifests) > 0 {
+		manifests = manifests[:len(manifests)-1] // the older ones
+	}
+	if op := c09FastSync(r, s, twin, encs, manifests); op != nil {
 		ops = append(ops, op)
 		r.Probe("op:" + op.kind)
 	}
